@@ -49,13 +49,85 @@ DECODE_ARITY = {
 }
 
 
+def codec_names(F):
+    """names of the codec's private types on the analysed tree: the encoder's and the decoder's DAG-view enums are the Self
+    types of the DagLike impls in encode.rs / decode.rs, the encoder enum's hidden variant is the one that holds no node"""
+    c = F.__dict__.get("_codec_names")
+    if c is not None:
+        return c
+    n = {"dec_enum": "DecodeNode", "enc_enum": "EncodeNode", "enc_hidden": "Hidden"}
+    for f in F.fns.values():
+        if f.name == "as_dag_node" and f.impl_trait == "simplicity::dag::DagLike":
+            # the decoder's view is an (index, slice-of-nodes) pair, the encoder's an enum over node references
+            m = re.match(r"\(usize, &\[simplicity::bit_encoding::(?:\w+::)*(\w+)\]\)$", f.impl_self or "")
+            if m:
+                n["dec_enum"] = m.group(1)
+            m = re.match(r"simplicity::bit_encoding::(?:\w+::)*(\w+)<", f.impl_self or "")
+            if m:
+                n["enc_enum"] = m.group(1)
+    for a in F.adts.values():
+        if a["path"].startswith("simplicity::bit_encoding::") and a["path"].endswith("::" + n["enc_enum"]):
+            hid = [v["name"] for v in a["variants"] if v["fields"] and not any("node::Node" in fld["ty"] for fld in v["fields"])]
+            if len(hid) == 1:
+                n["enc_hidden"] = hid[0]
+    F.__dict__["_codec_names"] = n
+    return n
+
+
+def encode_node_fn(F):
+    """the function that writes one node: `encode::encode_node`, or, renamed, the only function of encode.rs taking (an item
+    of the encoder's DAG view, the writer) and returning io::Result<()>"""
+    f = F.fn(ENC + "encode_node")
+    if f is not None:
+        return f
+    en = codec_names(F)["enc_enum"]
+    out = []
+    for p_, g in F.fns.items():
+        if p_.startswith(ENC) and g.kind in ("Fn", "AssocFn") and g.arg_count == 2 and len(g.locals) > 1:
+            a1 = g.locals[1] if isinstance(g.locals[1], str) else g.locals[1].get("ty", "")
+            if "::%s<" % en in a1 or a1.endswith("::" + en):
+                out.append(g)
+    return out[0] if len(out) == 1 else None
+
+
+def dec_canon(F, emap):
+    """decoder-enum variant -> the name it has on the pinned tree.  A variant keeps its own name when that is one of the pinned
+    names; a renamed variant is named after the constructor decode_expression applies to it (that is what the variant *is*)."""
+    PINNED = ("Iden", "Unit", "InjL", "InjR", "Take", "Drop", "Comp", "Case", "Pair", "Disconnect1", "Disconnect", "Witness", "Fail",
+              "Hidden", "Jet", "Word")
+    nfields = {}
+    dn = codec_names(F)["dec_enum"]
+    for a in F.adts.values():
+        if a["path"].startswith("simplicity::bit_encoding::") and a["path"].endswith("::" + dn):
+            for v in a["variants"]:
+                nfields[v["name"]] = len(v["fields"])
+    out = {}
+    for v, ms in (emap or {}).items():
+        if v in PINNED:
+            out[v] = v
+            continue
+        ms = set(ms)
+        c = None
+        if ms == {"<hidden>"}:
+            c = "Hidden"
+        elif ms == {"disconnect"}:
+            c = "Disconnect1" if nfields.get(v) == 1 else "Disconnect"
+        elif ms == {"case", "assertl", "assertr"}:
+            c = "Case"
+        elif len(ms) == 1:
+            c = {"const_word": "Word", "drop_": "Drop"}.get(next(iter(ms))) or vcc.VARIANT_OF.get(next(iter(ms)))
+        out[v] = c if c and c not in out.values() else v
+    return out
+
+
 def bits(val, n):
     return format(val, "0%db" % n)[-n:] if n else ""
 
 
 def encoder_table(F, rep):
-    f = F.fn(ENC + "encode_node")
-    f = F.inlined(f, CODEC_VOCAB) if f is not None else None
+    names = codec_names(F)
+    f = encode_node_fn(F)
+    f = F.inlined(f, CODEC_VOCAB + (f.name,)) if f is not None else None
     if f is None:
         rep.anchor("C01.codec", ENC + "encode_node")
         return None
@@ -75,8 +147,8 @@ def encoder_table(F, rep):
                 variant = vs[0] if len(vs) == 1 else (variant or None)
                 if len(vs) > 1:
                     variant = tuple(vs)
-            if c[0] == "enum" and c[1] == "EncodeNode":
-                hidden = "Hidden" in c[3]
+            if c[0] == "enum" and c[1] == names["enc_enum"]:
+                hidden = names["enc_hidden"] in c[3]
             if c[0] == "enum" and c[1] == "Option":
                 subj = repr(T.place(c[2]))
                 side = "left" if "left_index" in subj else ("right" if "right_index" in subj else None)
@@ -109,7 +181,7 @@ def encoder_table(F, rep):
                 payload.append("nat:" + which)
             elif name == "encode_hash":
                 a = T.operand(t["args"][0])
-                payload.append("hash:" + ("cmr" if "Hidden" in repr(a) else "entropy" if "Fail" in repr(a) else "?"))
+                payload.append("hash:" + ("cmr" if "'%s'" % names["enc_hidden"] in repr(a) else "entropy" if "Fail" in repr(a) else "?"))
             elif name == "encode" and t["f"].get("trait", "").endswith("jet::Jet"):
                 payload.append("jet")
             elif name == "encode_value":
@@ -135,7 +207,26 @@ def encoder_table(F, rep):
 def decode_node_fn(F):
     """the function that decodes one node: `decode::decode_node`, or whatever it was renamed to (the only function of the
     bit_encoding module returning Result<DecodeNode, _>)"""
-    return F.fn_sig(DEC + "decode_node", "simplicity::bit_encoding::", ret=("Result<", "::DecodeNode,"), nargs=2)
+    f = F.fn(DEC + "decode_node")
+    if f is not None:
+        return f
+    dn = codec_names(F)["dec_enum"]
+    cands = []
+    for p_, g in F.fns.items():
+        if p_.startswith("simplicity::bit_encoding::") and g.kind in ("Fn", "AssocFn") and g.arg_count == 2:
+            r0 = g.locals[0] if g.locals else ""
+            r0 = r0 if isinstance(r0, str) else r0.get("ty", "")
+            if "Result<" in r0 and "::%s," % dn in r0:
+                cands.append(g)
+    # split into per-group helpers, the node decoder is the one the others are called from
+    top = [g for g in cands if not any(cs.callee == g.path for h in cands if h is not g for cs in h.calls())]
+    return top[0] if len(top) == 1 else None
+
+
+def _ctor_item(t, enum_name):
+    if isinstance(t, tuple) and t and t[0] == "fnitem" and isinstance(t[1], str) and "::%s::" % enum_name in t[1]:
+        return t[1].rsplit("::", 1)[-1]
+    return None
 
 
 def decoder_table(F, rep):
@@ -172,7 +263,7 @@ def decoder_table(F, rep):
         for b in blocks:
             t = f.blocks[b]["t"]
             for s in f.blocks[b]["s"]:
-                if s[0] == "=" and s[2].get("k") == "agg" and s[2].get("adt", "").endswith("::DecodeNode"):
+                if s[0] == "=" and s[2].get("k") == "agg" and s[2].get("adt", "").endswith("::" + codec_names(F)["dec_enum"]):
                     built = (s[2]["variant"], [T.operand(o) for o in s[2]["ops"]])
             if t["k"] != "call" or "path" not in t["f"]:
                 continue
@@ -192,6 +283,9 @@ def decoder_table(F, rep):
                 payload.append("jet")
             elif name == "from_bits":
                 payload.append("value")
+            elif name == "map" and len(t["args"]) > 1 and _ctor_item(T.operand(t["args"][1]), codec_names(F)["dec_enum"]):
+                # `read(..).map(DecodeNode::Variant)`: the variant's constructor handed to map as a function value
+                built = (_ctor_item(T.operand(t["args"][1]), codec_names(F)["dec_enum"]), [T.operand(t["args"][0])])
             elif name == "map" and "Jet" in repr(T.operand(t["args"][1])) if len(t["args"]) > 1 else False:
                 built = ("Jet", [])
         if built is None:
@@ -220,7 +314,7 @@ def expression_map(F, rep):
         return None
     out = {}
     T = Terms(f)
-    for b, si in enum_switches(f, "::DecodeNode"):
+    for b, si in enum_switches(f, "::" + codec_names(F)["dec_enum"]):
         for v, tgt in si[2].items():
             reg = f.dominated_by(tgt)
             ms = set()
@@ -255,6 +349,14 @@ def run(ctx, rep):
     enc = encoder_table(F, rep)
     dec = decoder_table(F, rep)
     emap = expression_map(F, rep)
+    canon = dec_canon(F, emap)
+    if emap:
+        emap = {canon.get(v, v): ms for v, ms in emap.items()}
+    if dec:
+        dec2 = {}
+        for v, rows in dec.items():
+            dec2.setdefault(canon.get(v, v), set()).update(rows)
+        dec = dec2
     if enc and dec and emap:
         # what each DecodeNode variant becomes
         WANT = {"Iden": {"iden"}, "Unit": {"unit"}, "InjL": {"injl"}, "InjR": {"injr"}, "Take": {"take"}, "Drop": {"drop_"},
@@ -322,10 +424,12 @@ def run(ctx, rep):
             s = f.impl_self or ""
             if "node::Node<N>" in s:
                 views.append((f, "node::inner::Inner", NODE_ARITY, "DagLike for " + s.replace("simplicity::", "")))
-            elif "EncodeNode" in s:
+            elif s.startswith("simplicity::bit_encoding::"):
                 views.append((f, "node::inner::Inner", ENCODE_ARITY, "DagLike for EncodeNode"))
-            elif "DecodeNode" in s:
-                views.append((f, "::DecodeNode", DECODE_ARITY, "DagLike for (usize, &[DecodeNode])"))
+            elif s.startswith("(usize, &[simplicity::bit_encoding::"):
+                inv = {c_: v_ for v_, c_ in canon.items()}
+                views.append((f, "::" + codec_names(F)["dec_enum"], {inv.get(k_, k_): r_ for k_, r_ in DECODE_ARITY.items()},
+                              "DagLike for (usize, &[DecodeNode])"))
         if f.name in ("as_dag", "into_dag") and f.impl_adt == vcc.INNER:
             views.append((f, "node::inner::Inner", NODE_ARITY, "Inner::" + f.name))
     rep.floor("C01.arity(views)", len(views), 6)
